@@ -27,6 +27,10 @@ class Undecided(Exception):
     pass
 
 
+class LookupFailed(Undecided):
+    """A table has no entry for the key (the analysed code would raise KeyError / IndexError)."""
+
+
 class Lin:
     """a * L + b for one symbolic non-negative integer L (the number of values of a sequence)."""
 
@@ -94,15 +98,16 @@ def calcsize(fmt):
 
 
 class SymEval:
-    def __init__(self, facts, bindings=None):
+    def __init__(self, facts, bindings=None, classes=None):
         self.facts = facts
         self.bind = dict(bindings or {})
+        self.classes = dict(classes or {})      # symbolic object -> its class name (for class-level attributes)
         self.table_domains = []          # keys of every constant dict that was indexed / iterated
         self._module = {}
         self._busy = set()
 
     def with_bindings(self, extra):
-        e = SymEval(self.facts, dict(self.bind, **{}))
+        e = SymEval(self.facts, dict(self.bind), self.classes)
         e.bind.update(extra)
         e._module = self._module
         e.table_domains = self.table_domains
@@ -125,6 +130,59 @@ class SymEval:
         self._module[name] = v
         return v
 
+    def call_function(self, fn, args, kwargs):
+        """A module-level function whose body is a single `return <expression>` applied to concrete arguments."""
+        body = [b for b in fn.body if not (isinstance(b, ast.Expr) and isinstance(b.value, ast.Constant))]
+        a = fn.args
+        if len(body) != 1 or not isinstance(body[0], ast.Return) or body[0].value is None or a.vararg or a.kwarg or fn.name in self._busy:
+            raise Undecided('call {}'.format(fn.name))
+        params = [x.arg for x in a.args + a.kwonlyargs]
+        bound = dict(zip([x.arg for x in a.args], args))
+        bound.update(kwargs)
+        if set(bound) - set(params) or len(args) > len(a.args) or set(params) - set(bound):
+            raise Undecided('call {}: arguments'.format(fn.name))
+        st = PathState()
+        for p_ in params:
+            st.env[p_] = ('var', '$' + p_)
+        self._busy.add(fn.name)
+        try:
+            v = Walker(self.facts, inline='all').sym(body[0].value, st)
+            e = SymEval(self.facts, {('var', '$' + p_): val for p_, val in bound.items()}, {})
+            e._module = self._module
+            return e.ev(v)
+        finally:
+            self._busy.discard(fn.name)
+
+    def class_attr(self, v):
+        """Cls.X, self.X, type(self).X, self.__class__.X for an X assigned in the class body (looked up along the MRO)."""
+        base, attr = v[1], v[2]
+        cls = None
+        if base[0] == 'name' and base[1] in self.facts.classes:
+            cls = base[1]
+        elif base in self.classes:
+            cls = self.classes[base]
+        elif base[0] == 'call' and base[1] == 'type' and len(base[2]) == 1 and base[2][0] in self.classes:
+            cls = self.classes[base[2][0]]
+        elif base[0] == 'attr' and base[2] == '__class__' and base[1] in self.classes:
+            cls = self.classes[base[1]]
+        if cls is None:
+            raise Undecided('attribute {} of {}'.format(attr, str(base)[:40]))
+        for c in self.facts.mro(cls):
+            for st in self.facts.classes[c].node.body:
+                if isinstance(st, ast.Assign) and any(isinstance(t, ast.Name) and t.id == attr for t in st.targets):
+                    key = (c, attr)
+                    if key not in self._module:
+                        if key in self._busy:
+                            raise Undecided('recursive class attribute')
+                        self._busy.add(key)
+                        try:
+                            w = Walker(self.facts, inline='all')
+                            self._module[key] = ClassBody(self.facts, c).ev(w.sym(st.value, PathState()))
+                        finally:
+                            self._busy.discard(key)
+                    return self._module[key]
+        raise Undecided('class {} has no attribute {}'.format(cls, attr))
+
     def ev(self, v):
         if not isinstance(v, tuple) or not v:
             raise Undecided(repr(v))
@@ -140,6 +198,8 @@ class SymEval:
             if v[1] in ('True', 'False', 'None'):
                 return {'True': True, 'False': False, 'None': None}[v[1]]
             return self.module_value(v[1])
+        if k == 'attr':
+            return self.class_attr(v)
         if k == 'dict':
             out = {}
             for a, b in v[1]:
@@ -160,8 +220,24 @@ class SymEval:
                 self.table_domains.append(tuple(base.keys()))
             try:
                 return base[idx]
-            except (KeyError, IndexError, TypeError) as e:
-                raise Undecided('lookup {!r} fails: {}'.format(idx, type(e).__name__))
+            except (KeyError, IndexError) as e:
+                raise LookupFailed('lookup {!r} fails: {}'.format(idx, type(e).__name__))
+            except TypeError as e:
+                raise Undecided('lookup {!r}: {}'.format(idx, e))
+        if k == 'unpack':
+            base = self.ev(v[1])
+            n = v[3] if len(v) > 3 else None
+            try:
+                seq = list(base.items()) if False else list(base)
+            except TypeError:
+                raise Undecided('unpacking a {}'.format(type(base).__name__))
+            if isinstance(n, int) and n > 0 and len(seq) != n:
+                raise Undecided('unpacking {} values into {} targets'.format(len(seq), n))
+            idx = v[2]
+            if ':' in idx:
+                a, b = idx.split(':')
+                return seq[int(a):(int(b) if b else None)]
+            return seq[int(idx)]
         if k == 'slice':
             base = self.ev(v[1])
             lo, hi, step = (self.ev(x) for x in v[2:5])
@@ -229,6 +305,8 @@ class SymEval:
                 except Exception as e:
                     raise Undecided('{}(...): {}'.format(name, e))
                 return list(r) if name in ('range', 'zip', 'enumerate') else r
+            if name in self.facts.funcs:
+                return self.call_function(self.facts.funcs[name], args, kwargs)
             raise Undecided('call ' + name)
         if k in ('comp', 'dictcomp'):
             if k == 'comp':
@@ -254,6 +332,21 @@ class SymEval:
                 return dict(out)
             return set(out) if kind == 'SetComp' else out
         raise Undecided('{} value {}'.format(k, str(v)[:60]))
+
+
+class ClassBody(SymEval):
+    """Evaluation inside a class body: bare names refer to earlier class-level assignments first."""
+
+    def __init__(self, facts, cls):
+        super().__init__(facts)
+        self.cls = cls
+
+    def module_value(self, name):
+        for st in self.facts.classes[self.cls].node.body:
+            if isinstance(st, ast.Assign) and any(isinstance(t, ast.Name) and t.id == name for t in st.targets):
+                w = Walker(self.facts, inline='all')
+                return ClassBody(self.facts, self.cls).ev(w.sym(st.value, PathState()))
+        return super().module_value(name)
 
 
 def breakpoints(values, sym, evaluator):
